@@ -537,12 +537,35 @@ func (s *sim) deliverables() []item {
 					polRound = rb.Proposal.POLRound
 					rounds[polRound] = true
 				}
+				// After the synchrony point the property's premise is idealised gossip ("every message
+				// a correct node holds reaches every other correct node, majority claims included"):
+				// the precommits of a round in which the holder has +2/3 for a block - a decision
+				// certificate - reach the others whatever round they are in. (Production relays votes
+				// of the receiver's round only; a node that sits in the commit step of an earlier
+				// round and peers that have moved on can then wait for each other for ever - outside
+				// C03's premise, noted in DESIGN 13.3.)
+				certRound := int32(-1)
+				if s.gst {
+					for r := int32(0); r <= ra.Round; r++ {
+						if pc := ra.Votes.Precommits(r); pc != nil {
+							if id, ok := pc.TwoThirdsMajority(); ok && len(id.Hash) > 0 {
+								certRound = r
+							}
+						}
+					}
+					if certRound >= 0 {
+						rounds[certRound] = true
+					}
+				}
 				for r := int32(0); r <= s.maxRound+2; r++ {
 					if !rounds[r] {
 						continue
 					}
 					for typ := 1; typ <= 2; typ++ {
-						if r == polRound && r != rb.Round && typ == 2 {
+						if r == polRound && r != rb.Round && typ == 2 && r != certRound {
+							continue
+						}
+						if r == certRound && r != rb.Round && r != polRound && typ == 1 {
 							continue
 						}
 						va := voteSetOf(ra, r, typ)
